@@ -94,6 +94,8 @@ def judge(phase, tr, pre, n0, raised, ctx):
 def configure(p):
     C = opcheck.setup(p, judge, True)
     make_live(C)
+    opcheck.CTX["fresh"] = True
+    opcheck.CTX["on_refresh"] = make_live
 
 
 def ob_op(a: int, b: int, x: int) -> bool:
@@ -140,7 +142,7 @@ def ob_model(a: int, b: int, x: int, k: int) -> bool:
 
 
 def _model(a, b, x, k):
-    C = opcheck.CTX["C"]
+    C = opcheck.refresh()
     mo = model_ops(C)
     if not (0 <= a <= b <= C.size and 0 <= x < 4 and 0 <= k < len(mo)):
         return rt.SKIP
